@@ -163,6 +163,22 @@ def _extra():
     return E
 
 
+_DOC_VALUES = {"from": J2, "participant": J2,      # (no "to": a stanza from the server is not addressed)
+               "t": "1432833777", "offline": "1", "retry": "1", "last": "1432833000", "wait": "166952",
+               "backoff": "3600", "e": "0", "mode": "delete", "mediatype": "image", "id": "77"}
+
+
+def _walk(node):
+    yield node
+    for c in node.getAllChildren():
+        for x in _walk(c):
+            yield x
+
+
+def _clone(n):
+    return N(n.tag, dict(n.attributes), [_clone(c) for c in n.getAllChildren()], n.getData())
+
+
 def _variants():
     """further documented shapes of classes that already have a fixture: (variant name, class path, stanza builder)"""
     V = []
@@ -171,8 +187,14 @@ def _variants():
                         [N("list", {}, [N("item", {"id": "1415389947-13"}), N("item", {"id": "1415389947-14"})])])))
     V.append(("protocol_receipts:receipt_incoming.IncomingReceiptProtocolEntity#group", "protocol_receipts:receipt_incoming.IncomingReceiptProtocolEntity",
               lambda: N("receipt", {"from": G1, "participant": J2, "t": "1432833777", "id": "1415389947-12", "offline": "1"})))
-    V.append(("protocol_groups:iq_groups_list_result.ListGroupsResultIqProtocolEntity#two", "protocol_groups:iq_result_groups_list.ListGroupsResultIqProtocolEntity",
-              None))
+    V.append(("protocol_groups:iq_result_groups_list.ListGroupsResultIqProtocolEntity#members", "protocol_groups:iq_result_groups_list.ListGroupsResultIqProtocolEntity",
+              lambda: N("iq", {"type": "result", "from": "g.us", "id": "123"}, [N("groups", {}, [
+                  N("group", {"s_t": "1400000001", "creation": "1400000000", "creator": J1, "id": "4915225251111-1400000000", "s_o": J1, "subject": "first"},
+                    [N("participant", {"jid": J1, "type": "admin"}), N("participant", {"jid": J2})]),
+                  N("group", {"s_t": "1400000003", "creation": "1400000002", "creator": J2, "id": "4915225252222-1400000002", "s_o": J2, "subject": "second"},
+                    [N("participant", {"jid": J2, "type": "admin"})])])])))
+    V.append(("protocol_ib:offline_ib.OfflineIbProtocolEntity#from", "protocol_ib:offline_ib.OfflineIbProtocolEntity",
+              lambda: N("ib", {"from": "s.whatsapp.net"}, [N("offline", {"count": "5"})])))
     return [v for v in V if v[2] is not None]
 
 
@@ -195,4 +217,38 @@ def all_fixtures():
                 out[vname] = (classes[cname], fn(), "extra")
             except Exception:
                 pass
+    # attributes the class documents (docstring) on a tag its fixture has, but which no fixture of the class carries: one more shape per
+    # class with all of them filled in
+    import re
+    have = {}
+    for name, (cls, node, _src) in out.items():
+        acc = have.setdefault(cls, set())
+        for nn in _walk(node):
+            acc.update(nn.tag + "@" + a for a in nn.attributes)
+    for name, (cls, node, src) in list(out.items()):
+        if "#" in name:
+            continue
+        doc = cls.__dict__.get("__doc__") or ""
+        lack = []
+        for m in re.finditer(r"<([a-zA-Z:_0-9]+)((?:\s+[a-zA-Z_:0-9]+\s*=\s*\"[^\"]*\")*)", doc):
+            for a in re.finditer(r"([a-zA-Z_:0-9]+)\s*=\s*\"", m.group(2)):
+                key = m.group(1) + "@" + a.group(1)
+                if key not in have[cls] and key not in lack:
+                    lack.append(key)
+        if not lack:
+            continue
+        v = _clone(node)
+        added = 0
+        for key in lack:
+            tag, attr = key.split("@")
+            val = _DOC_VALUES.get(attr)
+            if val is None:
+                continue
+            for nn in _walk(v):
+                if nn.tag == tag and attr not in nn.attributes:
+                    nn.attributes[attr] = val
+                    added += 1
+                    break
+        if added:
+            out[name + "#doc"] = (cls, v, "extra")
     return out, sorted(set(classes) - set(n.split("#")[0] for n in out))
